@@ -643,12 +643,12 @@ ASSUME = ["emit/elapsed/Budget.consume are used through their contracts inside _
           "Budget.consume in C10"]
 
 TASKS = [
-    Task("state._handle_failure[exception]", lambda it: t_handle_failure(it, 0), ["C01", "C02", "C03", "C04", "C05", "C10", "C11", "C12", "C13", "C14", "C15", "C16"],
+    Task("state._handle_failure[exception]", lambda it: t_handle_failure(it, 0), ["C01", "C02", "C03", "C04", "C05", "C09", "C10", "C11", "C12", "C13", "C14", "C15", "C16"],
          [K_HF, SKEY + ".record_failure", "redress.policy.base:_BaseRetryPolicy._select_strategy",
           "redress.policy.state:_build_backoff_context"]),
-    Task("state._handle_failure[result]", lambda it: t_handle_failure(it, 1), ["C01", "C02", "C03", "C04", "C05", "C10", "C11", "C12", "C13", "C14", "C15", "C16"],
+    Task("state._handle_failure[result]", lambda it: t_handle_failure(it, 1), ["C01", "C02", "C03", "C04", "C05", "C09", "C10", "C11", "C12", "C13", "C14", "C15", "C16"],
          [K_HF, SKEY + ".record_failure"]),
-    Task("state.emit", t_emit, ["C01", "C02", "C03", "C04", "C05", "C10", "C11", "C12", "C13", "C14", "C15", "C16"], [K_EMIT]),
+    Task("state.emit", t_emit, ["C01", "C02", "C03", "C04", "C05", "C09", "C10", "C11", "C12", "C13", "C14", "C15", "C16"], [K_EMIT]),
     Task("state.check_abort", t_check_abort, ["C13", "C14"], [SKEY + ".check_abort"]),
 ]
 for _t in TASKS:
